@@ -12,18 +12,26 @@ package main
 
 import (
 	"context"
+	"errors"
+	"runtime/pprof"
+	"time"
 	"fmt"
 	"os"
 	"runtime"
 	"sort"
 	"strings"
 
+	rocksdb "github.com/facebookincubator/dns/dnsrocks/cgo-rocksdb"
+	"github.com/facebookincubator/dns/dnsrocks/db"
+	"github.com/facebookincubator/dns/dnsrocks/dnsdata/rdb"
 	"github.com/facebookincubator/dns/dnsrocks/dnsserver"
+	"github.com/facebookincubator/dns/dnsrocks/dnsserver/stats"
 	"github.com/facebookincubator/dns/dnsrocks/metrics"
 	"github.com/facebookincubator/dns/dnsrocks/zzverif/vsched"
 	"github.com/miekg/dns"
 
 	"verifharness/dnsfix"
+	"verifharness/srvfix"
 	"verifharness/vlib"
 )
 
@@ -40,35 +48,63 @@ M*.example.com,m1
 
 var paths = map[string][2]string{} // backend -> two database paths
 
+var sharedRocks *rocksdb.RocksDB
+
 type scen struct {
-	name    string
-	backend dnsfix.Backend
-	cache   bool
-	threads [][]string
-	bound   [2]int // quick, thorough
+	name      string
+	backend   dnsfix.Backend
+	cache     bool
+	realStats bool // the handler counts into a real metrics.Stats (many more lock operations per query)
+	threads   [][]string
+	bound     [2]int // quick, thorough
 }
 
 var scens = []scen{
-	{"cdb: 2 queries x full reload x stats", dnsfix.CDB, true, [][]string{{"q"}, {"q2"}, {"reload-full"}, {"stats"}}, [2]int{2, 3}},
-	{"cdb: query x reload x shutdown", dnsfix.CDB, false, [][]string{{"q", "q2"}, {"reload-full"}, {"shutdown"}}, [2]int{2, 3}},
-	{"rdb-v2: query x partial reload x stats", dnsfix.RDBv2, false, [][]string{{"q"}, {"reload-partial"}, {"stats"}}, [2]int{1, 2}},
-	{"rdb-v2: 2 queries x partial+full reload", dnsfix.RDBv2, true, [][]string{{"q"}, {"q2"}, {"reload-partial", "reload-full"}}, [2]int{1, 2}},
-	{"rdb-v2: query x shutdown", dnsfix.RDBv2, false, [][]string{{"q", "q2"}, {"shutdown"}}, [2]int{1, 2}},
+	{"cdb: query x full reload", dnsfix.CDB, true, false, [][]string{{"q"}, {"reload-full"}}, [2]int{2, 3}},
+	{"cdb: 2 queries x full reload x shutdown", dnsfix.CDB, false, false, [][]string{{"q", "q2"}, {"reload-full"}, {"shutdown"}}, [2]int{1, 2}},
+	{"cdb: query x stats export (real metrics)", dnsfix.CDB, false, true, [][]string{{"q"}, {"stats"}}, [2]int{1, 2}},
+	{"rdb-v2: query x partial reload", dnsfix.RDBv2, false, false, [][]string{{"q"}, {"reload-partial"}}, [2]int{1, 2}},
+	{"rdb-v2: 2 queries (cache on) x partial reload", dnsfix.RDBv2, true, false, [][]string{{"q", "q2"}, {"reload-partial"}}, [2]int{1, 2}},
+	{"rdb-v2: 2 queries x shutdown", dnsfix.RDBv2, false, false, [][]string{{"q", "q2"}, {"shutdown"}}, [2]int{2, 3}},
+	{"rdb-v2: stats export x partial reload (real metrics)", dnsfix.RDBv2, false, true, [][]string{{"stats"}, {"reload-partial"}}, [2]int{1, 2}},
 }
 
 func build(sc scen) (func(), func(*vsched.Result) []string) {
 	var notes []string
 	body := func() {
 		st := metrics.NewStats()
+		var hs stats.Stats = &stats.DummyStats{}
+		if sc.realStats {
+			hs = st
+		}
 		p := paths[sc.backend.String()]
 		h, err := dnsserver.NewFBDNSDBBasic(dnsserver.HandlerConfig{}, dnsserver.DBConfig{Path: p[0], Driver: sc.backend.Driver(), ReloadTimeout: 1 << 40},
-			dnsserver.CacheConfig{Enabled: sc.cache, LRUSize: 16}, &dnsserver.DummyLogger{}, st)
+			dnsserver.CacheConfig{Enabled: sc.cache, LRUSize: 16}, &dnsserver.DummyLogger{}, hs)
 		if err != nil {
 			panic(err)
 		}
-		if err := h.Load(); err != nil {
-			panic(err)
+		// real backend, opened by the repository's own driver, behind a tracking wrapper so that
+		// executions cut short by pruning do not leak mappings / RocksDB handles
+		reg := &srvfix.Registry{}
+		vsched.AtEnd(reg.CloseAll)
+		var inner db.DBI
+		if sc.backend == dnsfix.CDB {
+			inner, err = db.OpenDBIForVerif(p[0], sc.backend.Driver())
+			if err != nil {
+				panic(err)
+			}
+		} else {
+			// one real RocksDB secondary handle per process; each execution builds its own reader state
+			// (read options, iterator pool filled under the scheduler, driver) around it
+			rd := rdb.NewReaderOnSharedForVerif(sharedRocks)
+			inner = db.NewRDBDriverForVerif(rd, p[0])
+			vsched.AtEnd(func(normalEnd bool) {
+				if !normalEnd {
+					rd.FreePooledIteratorsForVerif() // idle pooled iterators of a cut execution
+				}
+			})
 		}
+		h.SetDBForVerif(db.NewDBForVerif(reg.Track(inner)))
 		// the sliding-window cleaner is a forever-running service goroutine
 		vsched.SetGoDaemon(true)
 		st.AddSample("DNS.responsetime_us", 1)
@@ -91,11 +127,11 @@ func build(sc scen) (func(), func(*vsched.Result) []string) {
 					case "q2":
 						query("x.w.example.com.", "8.8.8.8")
 					case "reload-full":
-						if err := h.Reload(*dnsserver.NewFullReloadSignal(p[1])); err != nil && !strings.Contains(err.Error(), "closed") {
+						if err := h.Reload(*dnsserver.NewFullReloadSignal(p[1])); err != nil && !strings.Contains(err.Error(), "closed") && !errors.Is(err, db.ErrReloadTimeout) {
 							notes = append(notes, "reload-full failed: "+err.Error())
 						}
 					case "reload-partial":
-						if err := h.Reload(*dnsserver.NewPartialReloadSignal()); err != nil && !strings.Contains(err.Error(), "closed") {
+						if err := h.Reload(*dnsserver.NewPartialReloadSignal()); err != nil && !strings.Contains(err.Error(), "closed") && !errors.Is(err, db.ErrReloadTimeout) {
 							notes = append(notes, "reload-partial failed: "+err.Error())
 						}
 					case "stats":
@@ -154,6 +190,10 @@ func main() {
 			}
 			paths[b.String()] = pp
 		}
+		var oerr error
+		if sharedRocks, oerr = rdb.OpenSharedForVerif(paths[dnsfix.RDBv2.String()][0]); oerr != nil {
+			panic(oerr)
+		}
 		for u := idx; u < len(scens); u += n {
 			sc := scens[u]
 			bound := sc.bound[0]
@@ -161,7 +201,9 @@ func main() {
 				bound = sc.bound[1]
 			}
 			outcomes := map[string]bool{}
-			st := vsched.Explore(vsched.Config{Bound: bound, MaxSteps: 50000}, func() (func(), func(*vsched.Result)) {
+			// an execution cut by state pruning in the middle of a query leaves native RocksDB iterators behind;
+			// such handles cannot be closed (RocksDB asserts) and are leaked until the shard process exits
+			st := vsched.Explore(vsched.Config{Bound: bound, MaxSteps: 50000, AccessPts: r.Thorough()}, func() (func(), func(*vsched.Result)) {
 				body, check := build(sc)
 				return body, func(res *vsched.Result) {
 					bad := check(res)
@@ -224,5 +266,14 @@ func fingerprint(sc scen, problem string) string {
 }
 
 func init() {
-	_ = os.Getenv
+	if f := os.Getenv("C14_PROF"); f != "" && os.Getenv("VERIF_SHARD_IDX") != "" {
+		fh, _ := os.Create(f)
+		pprof.StartCPUProfile(fh)
+		go func() {
+			time.Sleep(40 * time.Second)
+			pprof.StopCPUProfile()
+			fh.Close()
+			os.Exit(3)
+		}()
+	}
 }
